@@ -55,8 +55,8 @@ NO_DATA_MESSAGES = ("No trees in data source", "No trees available at requested 
 # ----------------------------------------------------------------------------- base documents
 DOCS = [
     # (name, schema, text, routes, reader kwargs)
-    ("newick:lengths", "newick", "((A:1,B:2)x:0.5,(C:1,D:1):0.25);\n", ["TreeList", "Tree", "DataSet"], {}),
-    ("newick:two", "newick", "[&R] ((A,B),C); [&U] (A,(B,C));\n", ["TreeList", "Tree"], {}),
+    ("newick:lengths", "newick", "((A:1,B:2)x:0.5,(C:1,D:1):0.25);\n", ["TreeList", "Tree", "DataSet", "yield", "TreeArray"], {}),
+    ("newick:two", "newick", "[&R] ((A,B),C); [&U] (A,(B,C));\n", ["TreeList", "Tree", "yield"], {}),
     ("newick:quoted", "newick", "(('A a':1e-2,B_b)[&s=1]:3,C[c]:0);", ["TreeList", "DataSet"], {}),
     ("newick:leaf", "newick", "A;", ["TreeList", "Tree"], {}),
     # options that make the reader evaluate more of the text: tree weights (fractions) and jplace edge numbers
@@ -64,9 +64,9 @@ DOCS = [
     ("newick:jplace", "newick", "((A:1{0},B:1{1}):1{2},C:2{3}){4};\n", ["TreeList"], {"is_parse_jplace_tokens": True}),
     ("nexus:taxa-trees", "nexus",
      "#NEXUS\nBEGIN TAXA;\n DIMENSIONS NTAX=3;\n TAXLABELS A B C;\nEND;\nBEGIN TREES;\n TREE t1 = [&R] ((A:1,B:2):1,C:3);\n TREE t2 = (A,B,C);\nEND;\n",
-     ["DataSet", "TreeList", "Tree"], {}),
+     ["DataSet", "TreeList", "Tree", "yield"], {}),
     ("nexus:translate", "nexus",
-     "#NEXUS\nBEGIN TREES;\n TRANSLATE 1 A, 2 'B b', 3 C;\n TREE * t = [&U] (1,(2,3)x:0.5);\nEND;\n", ["TreeList", "DataSet"], {}),
+     "#NEXUS\nBEGIN TREES;\n TRANSLATE 1 A, 2 'B b', 3 C;\n TREE * t = [&U] (1,(2,3)x:0.5);\nEND;\n", ["TreeList", "DataSet", "yield", "TreeArray"], {}),
     ("nexus:data", "nexus",
      "#NEXUS\nBEGIN DATA;\n DIMENSIONS NTAX=3 NCHAR=4;\n FORMAT DATATYPE=DNA GAP=- MISSING=?;\n MATRIX\n A ACGT\n B A-G?\n C {AC}CGT\n ;\nEND;\n",
      ["DataSet", "DnaMatrix", "DataSet+ns"], {}),
@@ -85,9 +85,12 @@ DOCS = [
      " FORMAT DATATYPE=DNA;\n MATRIX\n A AC\n B A-\n ;\nEND;\nBEGIN TREES;\n TITLE tr;\n LINK TAXA = tx;\n TREE t = (A,B);\nEND;\n"
      "BEGIN SETS;\n TITLE st;\n LINK CHARACTERS = ch;\n CHARSET c1 = 1-2;\nEND;\n", ["DataSet"], {}),
     ("nexus:unknown-block", "nexus",
-     "#NEXUS\nBEGIN PAUP;\n set x=y;\nEND;\nBEGIN TREES;\n TREE t = (A,(B,C));\nEND;\n", ["DataSet", "TreeList"], {}),
+     "#NEXUS\nBEGIN PAUP;\n set x=y;\nEND;\nBEGIN TREES;\n TREE t = (A,(B,C));\nEND;\n", ["DataSet", "TreeList", "yield"], {}),
     ("nexus:continuous", "nexus",
      "#NEXUS\nBEGIN DATA;\n DIMENSIONS NTAX=2 NCHAR=3;\n FORMAT DATATYPE=CONTINUOUS;\n MATRIX\n A 0.5 1e-3 -2\n B 1 2 3.25\n ;\nEND;\n",
+     ["DataSet", "ContinuousMatrix"], {}),
+    ("nexus:continuous-interleaved", "nexus",
+     "#NEXUS\nBEGIN DATA;\n DIMENSIONS NTAX=2 NCHAR=4;\n FORMAT DATATYPE=CONTINUOUS INTERLEAVE;\n MATRIX\n A 0.5 1e-3\n B 1 2\n\n A -2 7\n B 3.25 0\n ;\nEND;\n",
      ["DataSet", "ContinuousMatrix"], {}),
     ("nexus:standard", "nexus",
      "#NEXUS\nBEGIN DATA;\n DIMENSIONS NTAX=2 NCHAR=3;\n FORMAT DATATYPE=STANDARD SYMBOLS=\"01\" MISSING=? GAP=-;\n MATRIX\n A 01?\n B 1(01)-\n ;\nEND;\n",
@@ -141,6 +144,13 @@ def read_one(item):
         elif route == "Tree":
             prod = Tree.get(data=text, schema=schema, **kw)
             trees, mats = [prod], []
+        elif route == "yield":
+            # the one-tree-at-a-time iterator (its NEXUS form has a driver loop of its own)
+            trees, mats = list(Tree.yield_from_files(files=[io.StringIO(text)], schema=schema, **kw)), []
+        elif route == "TreeArray":
+            ta = dendropy.TreeArray()
+            ta.read(data=text, schema=schema, **kw)
+            trees, mats = [], []
         elif route in ("DataSet", "DataSet+ns"):
             if schema in ("phylip", "fasta"):
                 kw["data_type"] = item.get("data_type", "dna")
